@@ -18,6 +18,15 @@ def run(ctx):
     total_events = 0
     points = 0
     samples = []
+    # smallest histories first: every single event kind x transport x key class x table size on a fresh Metrics
+    out = C.run_harness(ctx, bins["metrics"], ["--mode", "events"])
+    for l in out.splitlines():
+        if l.startswith("{"):
+            d = json.loads(l)
+            points += 1
+            total_events += 2
+            if d["oracle"] != "ok":
+                ctx.violations.append({"what": "C15: " + d["oracle"][4:], "input": {"transport(1=http,2=grpc,3=redis)": d["transport"], "event(0=allowed,1=denied,2=error)": d["kind"], "key_bytes": d["key_bytes"], "denied_key_table_size": d["table"]}})
     for rounds, threads, events in runs:
         out = C.run_harness(ctx, bins["metrics"], ["--mode", "threads", "--seed", ctx.seed + threads, "--rounds", rounds, "--threads", threads, "--events", events])
         for l in out.splitlines():
@@ -33,7 +42,7 @@ def run(ctx):
     ctx.coverage.update({
         "evaluations": total_events,
         "distinct_nontrivial": points,
-        "rule": "2..64 OS threads each recording a PRNG list of record_request / record_request_with_key / record_error events on one Metrics; after every round all "
+        "rule": "2..64 OS threads each recording a PRNG list of record_request / record_request_with_key (allowed and denied, keys incl. empty, 256/257-byte, multi-byte, quote, line break; denied-key table of size 0, 3 or 100) / record_error events on one Metrics; after every round all "
                 "threads are joined (quiescent point) and the seven counters are compared with the events performed, with the identities and with the numbers parsed back from "
                 "export_prometheus(); evaluations = events recorded, distinct_nontrivial = quiescent points checked",
         "samples": samples,
